@@ -127,10 +127,14 @@ var plans = map[string]*Plan{
 		Rule: "histories biased to long chains with user/auto/marked-removed members and a checkpoint at varying positions; every answer of the real cleaner filter (GetDeleteCandidateChain) is checked name by name against the predicate of the property; deletions go through the cleaner route (candidate -> PrepareRemoveDisk -> fold -> RemoveDiffDisk) and the user route (mark removed); " +
 			"full live read and revert-on-copy of every retained user snapshot are compared before/after; two workers additionally run the real background cleaner (sync.InternalSnapshotCleaner, 60 s ticker, checkpoint from a stub of GET /v1/checkpoint, coalesce through the real sync-agent router re-executing sfold) for one round (thorough: two) with the first fold made to fail; non-trivial as C01; distinct = hash of the op-kind sequence" + "; on real processes (cluster engine, scenario snaplife): 16-19 user snapshots cut into a write stream through the controller REST API, all but 2-3 deleted through DELETE deleteSnapshot (the checkpoint must be refused), one replica killed and rebuilt so that the checkpoint moves above them, then the replicas' own background cleaners (60 s ticker) merge them while writes go on - every chain member that vanishes is checked against the selection predicate of the statement on the replica's last sampled REST state, live read at every reader position, stored live image and every retained user snapshot (revert-on-copy, every replica) are compared with the model; then Controller.Revert through REST to a retained user snapshot and a full read (thorough: also a full restart before it: retained members and attributes survive)",
 		Assumptions: rengAssume,
-		Floor:       map[string]int64{"candidate_queries": 50, "removals": 10, "snapshot_images_compared": 50, "cleaner_rounds": 1, "snaplife_deletion_phases": 1},
+		Floor:       map[string]int64{"candidate_queries": 50, "removals": 10, "snapshot_images_compared": 50, "cleaner_rounds": 1, "snaplife_deletion_phases": 1, "slow_puncher_deletions": 3, "deletions_started_with_punches_queued": 2},
 		Jobs: func(tier string) []Job {
 			js := jobs("reng", 16, tierN(tier, 6, 150), "", time.Duration(tierN(tier, 10, 80))*time.Minute)
 			return append(js, snapLife(tier, 2, 4)...)
+		},
+		// the cleaner's deletion on a replica whose hole puncher is slow (jiva's debug failpoint PUNCH_HOLE_TIMEOUT)
+		DebugJobs: func(tier string) []Job {
+			return jobs("reng", tierN(tier, 1, 3), tierN(tier, 3, 12), "slowpunch=1", time.Duration(tierN(tier, 10, 40))*time.Minute)
 		},
 		CrashSig: rengCrash("C11"),
 	},
@@ -166,6 +170,10 @@ var plans = map[string]*Plan{
 			js := jobs("reng", 16, tierN(tier, 8, 200), "", time.Duration(tierN(tier, 10, 90))*time.Minute)
 			if tier == "thorough" {
 				js = append(js, snapLife(tier, 0, 2)...)
+			} else {
+				// the short form of the scenario (no wait for the cleaners): a replica is rebuilt from peers that hold
+				// snapshots marked as removed
+				js = append(js, jobs("cluster", 1, 1, "bin={BIN},scen=snaplife,merges=0", 20*time.Minute)...)
 			}
 			return js
 		},
